@@ -19,7 +19,7 @@ class Contract(object):
     def __init__(self, key, sig=None, returns=None, requires=(), ensures=(), raises=None, modifies=None,
                  loops=None, inline=False, interface=False, pure=False, self_type=None, closure=None,
                  properties=(), notes='', reads_globals=None, ctor_of=None, allocates=True, exact_self=False,
-                 raises_only=None, ghost_pre=None, verify=True):
+                 raises_only=None, ghost_pre=None, verify=True, local_types=None):
         self.key = key
         self.sig = dict(sig or {})              # param name -> type string
         self.returns = returns                  # type string or None
@@ -39,6 +39,7 @@ class Contract(object):
         self.exact_self = exact_self
         self.raises_only = raises_only          # if set: list of exception class names that may escape (C15)
         self.ghost_pre = ghost_pre
+        self.local_types = dict(local_types or {})   # local name -> type of the empty list / dict literal bound to it
         self.verify = verify                    # False: assumed at call sites only (listed as an assumption)
 
 
